@@ -548,6 +548,19 @@ impl Gen {
         Space::sum(parts)
     }
 
+    /// the default derivation of every reachable rule in its context
+    pub fn rule_defaults(&self) -> Vec<(String, Vec<It>)> {
+        let mut out = vec![];
+        for r in 0..self.g.rules.len() {
+            let Some((pre, post)) = self.contexts[r].clone() else { continue };
+            let mut o = (*pre).clone();
+            o.extend_from_slice(&self.defaults[r]);
+            o.extend_from_slice(&post);
+            out.push((self.g.rules[r].0.clone(), o));
+        }
+        out
+    }
+
     /// every ordered pair of element alternatives for every repetition (hi >= 2)
     pub fn pairs(&self) -> Space<(String, Vec<It>)> {
         let mut parts = vec![];
@@ -635,6 +648,7 @@ pub struct Sentence {
     /// (start, end, is_identifier)
     pub toks: Vec<(usize, usize, bool)>,
     pub facts: Vec<Fact>,
+    pub bindings: usize,
 }
 
 pub const LAYOUTS: [&str; 3] = [" ", "\n  ", " /*c*/ "];
@@ -651,6 +665,16 @@ fn ident_name(var: &str, n: usize, pool: usize) -> String {
 }
 
 pub fn render(items: &[It], layout: &str, pool: usize) -> Sentence {
+    render_with(items, layout, pool, None)
+}
+
+/// number of distinct identifier bindings a derivation creates
+pub fn binding_count(items: &[It]) -> usize {
+    render_with(items, " ", 0, None).bindings
+}
+
+/// like `render`; `over` = (k, name) gives the k-th identifier binding (1-based) that name
+pub fn render_with(items: &[It], layout: &str, pool: usize, over: Option<(usize, &str)>) -> Sentence {
     // scopes of identifier bindings follow the facts
     let mut scopes: Vec<HashMap<String, String>> = vec![HashMap::new()];
     let mut counter = 0usize;
@@ -671,7 +695,10 @@ pub fn render(items: &[It], layout: &str, pool: usize) -> Sentence {
             It::Tok(s) => push_tok(&mut text, &mut toks, s, false),
             It::NewId(v) => {
                 counter += 1;
-                let name = ident_name(v, counter, pool);
+                let name = match over {
+                    Some((k, n)) if k == counter => n.to_string(),
+                    _ => ident_name(v, counter, pool),
+                };
                 scopes.last_mut().unwrap().insert(v.to_string(), name.clone());
                 push_tok(&mut text, &mut toks, &name, true);
             }
@@ -681,7 +708,10 @@ pub fn render(items: &[It], layout: &str, pool: usize) -> Sentence {
                     Some(n) => n,
                     None => {
                         counter += 1;
-                        let name = ident_name(v, counter, pool);
+                        let name = match over {
+                            Some((k, n)) if k == counter => n.to_string(),
+                            _ => ident_name(v, counter, pool),
+                        };
                         scopes[0].insert(v.to_string(), name.clone());
                         name
                     }
@@ -715,7 +745,7 @@ pub fn render(items: &[It], layout: &str, pool: usize) -> Sentence {
     // an escaped identifier must be followed by white space
     text.push('\n');
     facts.retain(|f| f.start != usize::MAX);
-    Sentence { text, toks, facts }
+    Sentence { text, toks, facts, bindings: counter }
 }
 
 pub fn grammar_text() -> &'static str {
